@@ -308,6 +308,7 @@ class ProcessCapabilityExchange():
         self.checklist_mandatory_avps = 0
         self.checklist_optional_avps = 0
         self.checklist_error_avps = 0
+        self.mandatory_avps_found = set()
         self.is_valid = False
 
         if message.header.flags == FLAG_REQUEST:
@@ -323,24 +324,29 @@ class ProcessCapabilityExchange():
         for avp in self.message.avps:
             if ProcessDiameterMessage.is_valid_origin_host_avp(avp, self.connection):
                 self.checklist_mandatory_avps += 1
+                self.mandatory_avps_found.add("origin_host")
 
             elif ProcessDiameterMessage.is_valid_origin_realm_avp(avp, self.connection):
                 self.checklist_mandatory_avps += 1
+                self.mandatory_avps_found.add("origin_realm")
 
             elif ProcessDiameterMessage.is_valid_host_ip_address_avp(avp, self.connection):
                 self.checklist_mandatory_avps += 1
+                self.mandatory_avps_found.add("host_ip_address")
 
             elif ProcessDiameterMessage.is_valid_vendor_id_avp(avp, self.connection):
                 self.checklist_mandatory_avps += 1
+                self.mandatory_avps_found.add("vendor_id")
 
             elif ProcessDiameterMessage.is_valid_product_name_avp(avp, self.connection):
                 self.checklist_mandatory_avps += 1
+                self.mandatory_avps_found.add("product_name")
 
             elif ProcessDiameterMessage.is_valid_origin_state_id_avp(avp, self.connection):
                 self.checklist_optional_avps += 1
 
 
-        if (self.checklist_mandatory_avps == 5) and (self.checklist_optional_avps >= 0 and self.checklist_optional_avps <= 7):
+        if (self.checklist_mandatory_avps == 5 and len(self.mandatory_avps_found) == 5) and (self.checklist_optional_avps >= 0 and self.checklist_optional_avps <= 7):
             self.is_valid = True
         else:
             self.is_valid = False
@@ -351,27 +357,33 @@ class ProcessCapabilityExchange():
         for avp in self.message.avps:
             if ProcessDiameterMessage.is_valid_result_code_avp(avp):
                 self.checklist_mandatory_avps += 1
+                self.mandatory_avps_found.add("result_code")
 
             if ProcessDiameterMessage.is_valid_origin_host_avp(avp, self.connection):
                 self.checklist_mandatory_avps += 1
+                self.mandatory_avps_found.add("origin_host")
 
             elif ProcessDiameterMessage.is_valid_origin_realm_avp(avp, self.connection):
                 self.checklist_mandatory_avps += 1
+                self.mandatory_avps_found.add("origin_realm")
 
             elif ProcessDiameterMessage.is_valid_host_ip_address_avp(avp, self.connection):
                 self.checklist_mandatory_avps += 1
+                self.mandatory_avps_found.add("host_ip_address")
 
             elif ProcessDiameterMessage.is_valid_vendor_id_avp(avp, self.connection):
                 self.checklist_mandatory_avps += 1
+                self.mandatory_avps_found.add("vendor_id")
 
             elif ProcessDiameterMessage.is_valid_product_name_avp(avp, self.connection):
                 self.checklist_mandatory_avps += 1
+                self.mandatory_avps_found.add("product_name")
 
             elif ProcessDiameterMessage.is_valid_origin_state_id_avp(avp, self.connection):
                 self.checklist_optional_avps += 1
 
 
-        if (self.checklist_mandatory_avps == 6) and (self.checklist_optional_avps >= 0 or self.checklist_optional_avps <= 7):
+        if (self.checklist_mandatory_avps == 6 and len(self.mandatory_avps_found) == 6) and (self.checklist_optional_avps >= 0 or self.checklist_optional_avps <= 7):
             self.is_valid = True
         else:
             self.is_valid = False
@@ -386,6 +398,7 @@ class ProcessDeviceWatchdog():
         self.checklist_mandatory_avps = 0
         self.checklist_optional_avps = 0
         self.checklist_error_avps = 0
+        self.mandatory_avps_found = set()
         self.is_valid = False
 
         if message.header.flags == FLAG_REQUEST:
@@ -401,15 +414,17 @@ class ProcessDeviceWatchdog():
         for avp in self.message.avps:
             if ProcessDiameterMessage.is_valid_origin_host_avp(avp, self.connection):
                 self.checklist_mandatory_avps += 1
+                self.mandatory_avps_found.add("origin_host")
 
             elif ProcessDiameterMessage.is_valid_origin_realm_avp(avp, self.connection):
                 self.checklist_mandatory_avps += 1
+                self.mandatory_avps_found.add("origin_realm")
 
             elif ProcessDiameterMessage.is_valid_origin_state_id_avp(avp, self.connection):
                 self.checklist_optional_avps += 1
 
 
-        if (self.checklist_mandatory_avps == 2) and (self.checklist_optional_avps == 0 or self.checklist_optional_avps == 1):
+        if (self.checklist_mandatory_avps == 2 and len(self.mandatory_avps_found) == 2) and (self.checklist_optional_avps == 0 or self.checklist_optional_avps == 1):
             self.is_valid = True
         else:
             self.is_valid = False
@@ -421,18 +436,21 @@ class ProcessDeviceWatchdog():
         for avp in self.message.avps:
             if ProcessDiameterMessage.is_valid_result_code_avp(avp):
                 self.checklist_mandatory_avps += 1
+                self.mandatory_avps_found.add("result_code")
 
             if ProcessDiameterMessage.is_valid_origin_host_avp(avp, self.connection):
                 self.checklist_mandatory_avps += 1
+                self.mandatory_avps_found.add("origin_host")
 
             elif ProcessDiameterMessage.is_valid_origin_realm_avp(avp, self.connection):
                 self.checklist_mandatory_avps += 1
+                self.mandatory_avps_found.add("origin_realm")
 
             elif ProcessDiameterMessage.is_valid_origin_state_id_avp(avp, self.connection):
                 self.checklist_optional_avps += 1
 
 
-        if (self.checklist_mandatory_avps == 3) and (self.checklist_optional_avps == 0 or self.checklist_optional_avps == 1):
+        if (self.checklist_mandatory_avps == 3 and len(self.mandatory_avps_found) == 3) and (self.checklist_optional_avps == 0 or self.checklist_optional_avps == 1):
             self.is_valid = True
         else:
             self.is_valid = False
@@ -447,6 +465,7 @@ class ProcessDisconnectPeer():
         self.checklist_mandatory_avps = 0
         self.checklist_optional_avps = 0
         self.checklist_error_avps = 0
+        self.mandatory_avps_found = set()
         self.is_valid = False
 
         if message.header.flags == FLAG_REQUEST:
@@ -462,15 +481,18 @@ class ProcessDisconnectPeer():
         for avp in self.message.avps:
             if ProcessDiameterMessage.is_valid_origin_host_avp(avp, self.connection):
                 self.checklist_mandatory_avps += 1
+                self.mandatory_avps_found.add("origin_host")
 
             elif ProcessDiameterMessage.is_valid_origin_realm_avp(avp, self.connection):
                 self.checklist_mandatory_avps += 1
+                self.mandatory_avps_found.add("origin_realm")
 
             elif ProcessDiameterMessage.is_valid_disconnect_cause_avp(avp):
                 self.checklist_mandatory_avps += 1
+                self.mandatory_avps_found.add("disconnect_cause")
 
 
-        if (self.checklist_mandatory_avps == 3):
+        if (self.checklist_mandatory_avps == 3 and len(self.mandatory_avps_found) == 3):
             self.is_valid = True
         else:
             self.is_valid = False
@@ -482,15 +504,18 @@ class ProcessDisconnectPeer():
         for avp in self.message.avps:
             if ProcessDiameterMessage.is_valid_result_code_avp(avp):
                 self.checklist_mandatory_avps += 1
+                self.mandatory_avps_found.add("result_code")
 
             if ProcessDiameterMessage.is_valid_origin_host_avp(avp, self.connection):
                 self.checklist_mandatory_avps += 1
+                self.mandatory_avps_found.add("origin_host")
 
             elif ProcessDiameterMessage.is_valid_origin_realm_avp(avp, self.connection):
                 self.checklist_mandatory_avps += 1
+                self.mandatory_avps_found.add("origin_realm")
 
 
-        if (self.checklist_mandatory_avps == 3) and (self.checklist_error_avps >= 0 and self.checklist_error_avps <= 2):
+        if (self.checklist_mandatory_avps == 3 and len(self.mandatory_avps_found) == 3) and (self.checklist_error_avps >= 0 and self.checklist_error_avps <= 2):
             self.is_valid = True
         else:
             self.is_valid = False
